@@ -23,6 +23,9 @@ func C20_dial_cancellation() {
 		}
 		retry++
 		vC20Scenario()
+		if vTheConn != nil && vTheConn.silent {
+			vRetryStop() // a silent peer's outcome does not depend on the schedule, and it takes real time
+		}
 	})
 }
 
@@ -39,6 +42,8 @@ func vC20Scenario() {
 		timeout = 40
 	}
 	silent := vBool("silentpeer")
+	partial := vBool("partialpeer") // a silent peer that first sends the status line and half a header line
+	vAssume(!partial || silent)
 	refuse := vBool("refusepeer") // the peer answers 400: a handshake failure that is not a timeout
 	vAssume(!(silent && refuse))
 	cancelAt := vInt("cancelat") // cancel right before connection operation #cancelAt (-1: never)
@@ -56,6 +61,8 @@ func vC20Scenario() {
 	hold := vBool("holdwatcher")
 	vAssume(!hold || (!silent && ctxKind == 1 && cancelAt >= 0 && !late))
 	bounded := timeout > 0 || ctxKind >= 2 || cancelAt == -2 || cancelAt == 0 || (cancelAt == 1 && !late)
+	// (a partial peer completes the first read: the blocked one is #2)
+	bounded = bounded || (partial && ((cancelAt == 1 && late) || (cancelAt == 2 && !late)))
 	if silent && !bounded {
 		vAssume(false)
 	}
@@ -65,14 +72,14 @@ func vC20Scenario() {
 		root = vNewCtx()
 		ctx = root
 		if ctxKind >= 2 {
-			d := []int64{20, 80}[ctxKind-2] * vMs
+			d := []int64{20, 80}[ctxKind-2] * vUnit()
 			root.setDeadline(vTimeAt(d))
 			if vSymbolic() {
 				vTimers = append(vTimers, &vTimer{at: d, fire: func() { root.cancel(context.DeadlineExceeded) }})
 			}
 		}
 	}
-	conn := &vDConn{cancelAt: cancelAt, cancelLate: late, ctx: root, silent: silent, refuse: refuse, hold: hold}
+	conn := &vDConn{cancelAt: cancelAt, cancelLate: late, ctx: root, silent: silent, partial: partial, refuse: refuse, hold: hold}
 	vTheConn = conn
 	if cancelAt == -2 && root != nil {
 		root.cancel(context.Canceled)
@@ -82,7 +89,7 @@ func vC20Scenario() {
 	ignore := vBool("netdialignoresctx")
 	vAssume(!ignore || cancelAt == -2)
 	dialed := false
-	d := Dialer{Timeout: time.Duration(timeout * vMs), NetDial: func(dctx context.Context, network, addr string) (net.Conn, error) {
+	d := Dialer{Timeout: time.Duration(timeout * vUnit()), NetDial: func(dctx context.Context, network, addr string) (net.Conn, error) {
 		// like net.Dialer: an already-ended context fails the dial
 		if err := dctx.Err(); err != nil && !ignore {
 			return nil, err
@@ -145,7 +152,10 @@ func vC20Scenario() {
 	if refuse {
 		vAssert(err != nil, "dial.refused_handshake_is_error")
 	}
-	if dialed && root != nil && root.Err() != nil && !refuse {
+	// (natively only for contexts ended by the scenario's own cancellation, which is tied to a
+	// connection operation: a real-time deadline may also fire between Dial's return and this
+	// line, which says nothing about Dial)
+	if dialed && root != nil && root.Err() != nil && !refuse && (vSymbolic() || ctxKind == 1) {
 		// the context ended while Dial was at work (nothing in this harness ends it after the last
 		// connection operation): whatever the handshake did — timed out on the poisoned
 		// connection, or even completed — the error is a context error
@@ -176,17 +186,17 @@ func vC20Scenario() {
 	if silent {
 		bound := int64(-1)
 		if timeout > 0 {
-			bound = timeout * vMs
+			bound = timeout * vUnit()
 		}
 		if ctxKind >= 2 {
-			if cd := []int64{20, 80}[ctxKind-2] * vMs; bound < 0 || cd < bound {
+			if cd := []int64{20, 80}[ctxKind-2] * vUnit(); bound < 0 || cd < bound {
 				bound = cd
 			}
 		}
 		if bound >= 0 {
 			slack := int64(0)
 			if !vSymbolic() {
-				slack = 30 * vMs
+				slack = 150 * vMs
 			}
 			vAssert(elapsed <= bound+slack, "dial.returns_by_earliest_of_timeout_and_deadline")
 			vAssert(err != nil, "dial.silent_peer_is_error")
